@@ -245,6 +245,7 @@ def default_origins(env):
     return out
 
 
+@opaque(returns='bool')
 def origin_allowed(cfg, env, o):
     """Is origin o allowed by the configured policy cfg for the request env?"""
     if cfg is None:
@@ -260,6 +261,7 @@ def origin_allowed(cfg, env, o):
     return o in cfg
 
 
+@opaque(returns='bool')
 def origin_refused(cfg, env):
     """The origin gate: checking is active, an Origin header is present and it is not allowed."""
     if cfg == []:
@@ -270,6 +272,7 @@ def origin_refused(cfg, env):
     return not origin_allowed(cfg, env, o)
 
 
+@opaque(returns='bool')
 def acao_expected(cfg, env):
     """Access-Control-Allow-Origin is emitted exactly for an allowed request Origin."""
     if cfg == [] or 'HTTP_ORIGIN' not in env:
@@ -341,7 +344,8 @@ def appended_at_most_close(acc, old_acc, not_this):
     if acc == old_acc:
         return True
     return len(acc) == len(old_acc) + 1 and acc[0:len(old_acc)] == old_acc and \
-        acc[len(old_acc)].packet_type == 1 and acc[len(old_acc)] is not not_this
+        acc[len(old_acc)].packet_type == 1 and acc[len(old_acc)] is not not_this and \
+        fresh_obj(acc[len(old_acc)])
 
 
 def is_handler_task(name):
@@ -390,6 +394,7 @@ def handshake_frames(log, n0):
         (not frame_out(f2)) and decodes_to(frame_data(f2), 5)
 
 
+@opaque(returns='bool')
 def is_upgrade_request(environ, protocols):
     """The request asks for a transport upgrade (Connection: upgrade + Upgrade: <protocol>)."""
     connections = [s.strip() for s in environ.get('HTTP_CONNECTION', '').lower().split(',')]
@@ -458,3 +463,93 @@ def cookie_value(sid, attributes):
 def grows(log, old_log):
     """An append-only ghost log: the old content is a prefix of the new."""
     return len(log) >= len(old_log) and log[0:len(old_log)] == old_log
+
+
+def all_values(d, f):
+    for v in d.values():
+        if not f(v):
+            return False
+    return True
+
+
+# --- C12: request admission (DESIGN Appendix F) ---------------------------------------------------
+
+def q_of(environ):
+    return parse_qs(environ.get('QUERY_STRING', ''))
+
+
+@opaque(returns='str')
+def q_transport(environ):
+    return q_of(environ).get('transport', ['polling'])[0]
+
+
+@opaque(returns='any')
+def q_sid(environ):
+    q = q_of(environ)
+    if 'sid' in q:
+        return q['sid'][0]
+    return None
+
+
+def upgrade_header(environ):
+    if 'HTTP_UPGRADE' in environ:
+        return environ.get('HTTP_UPGRADE').lower()
+    return None
+
+
+def jsonp_bad(environ):
+    q = q_of(environ)
+    return 'j' in q and not int_ok(q['j'][0])
+
+
+def live(server, sid):
+    return sid in server.sockets and not server.sockets[sid].closed
+
+
+@opaque(returns='int', reads=['BaseServer.transports', 'BaseServer.sockets', 'BaseSocket.closed', 'BaseSocket.upgraded'])
+def refusal(server, environ):
+    """0 = admitted; otherwise the refusal status (400 / 405) the statement prescribes."""
+    method = environ['REQUEST_METHOD']
+    t = q_transport(environ)
+    sid = q_sid(environ)
+    if t not in server.transports:
+        return 400
+    if sid is None and q_of(environ).get('EIO') != ['4']:
+        return 400
+    if jsonp_bad(environ):
+        return 400
+    if method == 'GET':
+        if sid is None:
+            if t == 'polling' or (t == 'websocket' and upgrade_header(environ) == 'websocket'):
+                return 0
+            return 400
+        if not live(server, sid):
+            return 400
+        tr = 'websocket' if server.sockets[sid].upgraded else 'polling'
+        if tr != t and t != upgrade_header(environ):
+            return 400
+        return 0
+    if method == 'POST':
+        if sid is None or not live(server, sid):
+            return 400
+        return 0
+    if method == 'OPTIONS':
+        return 0
+    return 405
+
+
+@opaque(returns='bool')
+def is_websocket_request(server, environ):
+    """Requests C15 exempts from the bounded-time / single-response clauses: WebSocket opens
+    and upgrade requests (their response is produced by the WebSocket driver)."""
+    if environ['REQUEST_METHOD'] != 'GET':
+        return False
+    sid = q_sid(environ)
+    if sid is None:
+        return q_transport(environ) == 'websocket'
+    return is_upgrade_request(environ, ['websocket'])
+
+
+def fresh_obj(x):
+    """Verifier primitive (allocated during the call); natively not observable."""
+    return True
